@@ -197,6 +197,7 @@ def run(rep, tier):
     starfinders(rep, drv, r, 16 * scale)
     centroid_refine(rep, r, 10 * scale)
     exclude_border_probe(rep, r, 8 * scale)
+    separation_symmetry_probe(rep, r, 6 * scale)
 
 
 def star_scene(r):
@@ -216,8 +217,30 @@ def star_scene(r):
     return img, pos
 
 
+def corpus_nonpositive_flux(rep):
+    """corpus (runs first): the fixed reproduction of known finding F40 - a blank-sky position given through xycoords that passes the
+    filters with a negative flux comes back with mag = NaN"""
+    from photutils.detection import DAOStarFinder
+    rs = np.random.RandomState(12345)
+    img = rs.normal(0, 0.3, (41, 41))
+    yy, xx = np.mgrid[0:41, 0:41]
+    img += 50 * np.exp(-((xx - 12) ** 2 + (yy - 14) ** 2) / (2 * 1.2 ** 2))
+    xyc = np.array([(12.0, 14.0), (21.0, 10.0)])
+    with warnings.catch_warnings():
+        warnings.simplefilter('ignore')
+        tbl = DAOStarFinder(threshold=2.0, fwhm=2.8, xycoords=xyc, sharplo=0.2, sharphi=1.0, roundlo=-1.0, roundhi=1.0)(img)
+    rep.case(('corpus-F40',), True, kind='corpus:xycoords-on-blank-sky')
+    rep.probe_only += 1
+    if tbl is not None:
+        bad = ~np.isfinite(np.asarray(tbl['mag'], float))
+        if bad.any() and bool(np.all(np.asarray(tbl['flux'], float)[bad] <= 0)):
+            rep.violation('starfinder-nonfinite-mag:nonpositive-flux:DAOStarFinder', 'DAOStarFinder: the returned table has a non-finite `mag` for a source with '
+                          f'flux <= 0 (fluxes {[float(v) for v in tbl["flux"]]})', {'finder': 'DAOStarFinder', 'corpus': 'F40', 'xycoords': xyc.tolist()})
+
+
 def starfinders(rep, drv, r, n):
     from photutils.detection import DAOStarFinder, IRAFStarFinder, StarFinder
+    corpus_nonpositive_flux(rep)
     lines, exps = [], []
     for k in range(n):
         img, pos = star_scene(r)
@@ -291,8 +314,13 @@ def starfinders(rep, drv, r, n):
                 exps.append(('ok ' + ' '.join(map(str, idx)), name))
                 # (S) reported attributes within bounds, finite, ids 1..N, brightest = N largest fluxes
                 ok = list(tbl['id']) == list(range(1, len(tbl) + 1))
+                nanmag = False
                 for col in tbl.colnames:
-                    ok = ok and bool(np.all(np.isfinite(np.asarray(tbl[col], float))))
+                    colfin = np.isfinite(np.asarray(tbl[col], float))
+                    if col == 'mag' and not colfin.all() and bool(np.all(np.asarray(tbl['flux'], float)[~colfin] <= 0)):
+                        nanmag = True           # known finding F40: mag = -2.5 log10(flux) of a source with non-positive flux
+                        continue
+                    ok = ok and bool(np.all(colfin))
                 if name != 'StarFinder':
                     ok = ok and bool(np.all((tbl['sharpness'] >= f.sharplo) & (tbl['sharpness'] <= f.sharphi)))
                 if pk is not None:
@@ -306,10 +334,14 @@ def starfinders(rep, drv, r, n):
                     ok = ok and np.allclose(np.sort(np.asarray(tbl['flux'], float))[::-1], allf[:len(tbl)])
                 if xyc is not None:
                     ok = ok and len(tbl) <= len(xyc)
+                if ok and nanmag:
+                    rep.violation(f'starfinder-nonfinite-mag:nonpositive-flux:{name}', f'{name}: the returned table has a non-finite `mag` for a source with flux <= 0 '
+                                  f'(fluxes {[float(v) for v in tbl["flux"]]})',
+                                  {'finder': name, 'brightest': br, 'peakmax': pk, 'min_separation': msep, 'xycoords': None if xyc is None else xyc.tolist(), 'data': img.tolist()})
                 if not ok:
                     rep.violation(f'starfinder-contract:{name}', f'{name}: returned table violates its selection contract '
                                   f'({len(tbl)} rows; {int(np.count_nonzero(inb))} raw detections pass the filters, brightest={br}, peakmax={pk})',
-                                  {'finder': name, 'brightest': br, 'peakmax': pk, 'data': img.tolist()})
+                                  {'finder': name, 'brightest': br, 'peakmax': pk, 'min_separation': msep, 'xycoords': None if xyc is None else xyc.tolist(), 'data': img.tolist()})
     out = drv.run(lines)
     if out is None:
         rep.tie_broken('model driver failed (stars)', drv.error)
@@ -323,6 +355,55 @@ def starfinders(rep, drv, r, n):
                 rep.tie_broken(f'star-finder selection model and {name} disagree', {'op': ln[:300], 'model': o, 'impl': e})
         elif o != e:
             rep.count('stars:tie-order-differs')
+
+
+def separation_symmetry_probe(rep, r, n):
+    """min_separation: the neighbourhood within which a detection must be the maximum is a disk, so the finders commute with mirroring
+    and transposing the image (circular kernels); pairs of stars are placed exactly min_separation (and one pixel more / less) apart
+    along an axis, the brighter one on either side"""
+    from photutils.detection import DAOStarFinder, IRAFStarFinder, StarFinder
+    gy_, gx_ = np.mgrid[-3:4, -3:4]
+    sk = np.exp(-(gx_ ** 2 + gy_ ** 2) / (2 * 1.2 ** 2))
+    for k in range(n):
+        ny, nx = 41, 47
+        yy, xx = np.mgrid[0:ny, 0:nx]
+        msep = r.choice([3, 4, 5])
+        img = np.zeros((ny, nx))
+        pairs = []
+        for (cx, cy) in [(11, 10), (34, 12), (12, 30), (35, 29)]:
+            d = msep + r.choice([0, 0, 0, 1, -1])
+            ax = r.choice(['x', 'y'])
+            a, b = r.choice([(100.0, 60.0), (60.0, 100.0)])
+            p1, p2 = (cx, cy), ((cx + d, cy) if ax == 'x' else (cx, cy + d))
+            for (px, py), amp in ((p1, a), (p2, b)):
+                img += amp * np.exp(-((xx - px) ** 2 + (yy - py) ** 2) / (2 * 1.2 ** 2))
+            pairs.append((p1, p2, a, b))
+        finders = [('DAOStarFinder', lambda: DAOStarFinder(threshold=5.0, fwhm=2.8, min_separation=float(msep))),
+                   ('StarFinder', lambda: StarFinder(threshold=5.0, kernel=sk, min_separation=float(msep))),
+                   ('IRAFStarFinder', lambda: IRAFStarFinder(threshold=5.0, fwhm=2.8, minsep_fwhm=msep / 2.8))]
+        for name, mk in finders:
+            def pts(im, back):
+                with warnings.catch_warnings():
+                    warnings.simplefilter('ignore')
+                    t = mk()(im)
+                if t is None:
+                    return []
+                return sorted((round(float(back(x_, y_)[0]), 6), round(float(back(x_, y_)[1]), 6)) for x_, y_ in zip(t['xcentroid'], t['ycentroid']))
+            try:
+                base = pts(img, lambda x_, y_: (x_, y_))
+                variants = {'mirror-x': pts(img[:, ::-1].copy(), lambda x_, y_: (nx - 1 - x_, y_)),
+                            'mirror-y': pts(img[::-1, :].copy(), lambda x_, y_: (x_, ny - 1 - y_)),
+                            'transpose': pts(img.T.copy(), lambda x_, y_: (y_, x_))}
+            except Exception as e:                              # noqa: BLE001
+                rep.violation(f'starfinder-raises:{name}', f'{name} raised {e!r}', {'finder': name, 'min_separation': msep})
+                continue
+            rep.case(('sepsym', name, img.tobytes(), msep), True, kind=f'separation-symmetry:{name}')
+            rep.probe_only += 1
+            for vn, got in variants.items():
+                if len(got) != len(base) or any(abs(a_[0] - b_[0]) > 1e-4 or abs(a_[1] - b_[1]) > 1e-4 for a_, b_ in zip(base, got)):
+                    rep.violation(f'separation-not-symmetric:{name}:{vn}', f'{name}(min_separation={msep}): {len(base)} sources on the image, {len(got)} on its '
+                                  f'{vn} image (mapped back): {base} vs {got}', {'finder': name, 'min_separation': msep, 'pairs': pairs, 'variant': vn})
+                    break
 
 
 def exclude_border_probe(rep, r, n):
